@@ -53,6 +53,11 @@ def cases(tier, seed):
             for regime in ('E', 'R'):
                 out.append(dict(gen='tt', pert=pert, precision=prec, regime=regime, fault=None, sub=core.subseed('C09', seed, k), must=True))
                 k += 1
+    # the statistic has no unit: traces in millivolt- or microvolt-like units (and in large units) give the same t
+    for prec in ('float32', 'float64'):
+        for unit in (1e-3, 1e-6, 1e-9, 1e4):
+            out.append(dict(gen='tt', pert='none', precision=prec, regime='R', unit=unit, fault=None, sub=core.subseed('C09u', seed, k), must=True))
+            k += 1
     for j in range(6 if tier == 'quick' else 60):
         out.append(dict(gen='tt', pert=['threads', 'none', 'threads'][j % 3], precision='float64', regime='E', fault=None, stress=True, sub=core.subseed('C09s', seed, j), must=j < 4))
     for thread in (0, 1):
@@ -159,6 +164,7 @@ def run_case(case):
         bs = 5
     tdt = ['int16', 'int32', 'uint16', 'float32', 'float64'][int(rng.integers(5))]
     off2 = 1000
+    unit = 1.0
     if stress:
         bs = int(rng.choice([n1, n1, 1000, 2500]))
         tdt = ['int32', 'float64', 'float32'][int(rng.integers(3))]
@@ -175,7 +181,7 @@ def run_case(case):
         if rng.random() < 0.2:
             body1[:, 1] = body2[0, 1]
             body2[:, 1] = body2[0, 1]        # zero variance in both sets on one column
-    elif regime == 'R' and prec == 'float64' and rng.random() < 0.3:
+    elif regime == 'R' and prec == 'float64' and not case.get('unit') and rng.random() < 0.3:
         # integer traces of large magnitude (32 / 64-bit samples): sums of squares far beyond 2^63, judged with the rounding bound
         tdt = ['int32', 'int64', 'uint32'][int(rng.integers(3))]
         mag = float(rng.choice([3e4, 1.5e9, 2.1e9])) if tdt != 'int64' else float(rng.choice([1.5e9, 4e12]))
@@ -186,8 +192,12 @@ def run_case(case):
         if tdt not in ('float32', 'float64'):
             tdt = 'float64'
         off = float(rng.choice([0.0, 20.0, 500.0]))
-        body1 = off + rng.normal(0, 1, (n1, L))
-        body2 = off + 0.3 + rng.normal(0, 1.5, (n2, L))
+        unit = float(case.get('unit') or rng.choice([1.0, 1.0, 1.0, 1e-3, 1e-6, 1e-9, 1e4]))
+        if case.get('unit'):
+            off = 0.0            # no cancellation: every entry is decidable, in single precision too
+        body1 = unit * (off + rng.normal(0, 1, (n1, L)))
+        body2 = unit * (off + 0.3 + rng.normal(0, 1.5, (n2, L)))
+        t.count('trace_unit:%g' % unit)
     s1 = body1.astype(tdt)
     s2 = body2.astype(tdt)
     s1[:, cid] = np.arange(n1)
@@ -249,6 +259,8 @@ def run_case(case):
     cdesc = []
     for _ in range(int(rng.choice([0, 0, 1, 2]))):
         kk = int(rng.integers(3))
+        if unit != 1.0:
+            kk = 2               # scaled traces: neither squared (underflow) nor shifted by a unit-less ramp
         if kk == 0 and regime == 'E' and prec == 'float32':
             continue
         if kk == 0:
